@@ -112,6 +112,13 @@ def plan_for(prop, tier, seed):
     elif n == 3:
         p["jobs"] = explore_mix(["default", "sharing", "errorpath", "shrink"], tier, seed, asan=True, memcheck=True) + HUGE + \
             [eng("asan", "huge", ["--max", 1 << 20], 1, seed + 52, weight=3)]
+        # "released exactly once ... when all handles are gone nothing remains allocated" also when the
+        # handles are released from different threads: the concurrent runner's heap accounting, labelled C03
+        p["jobs"] += [eng("native-rel", "conc", ["--shim", "shadow", "--programs", 1500 if quick else 20000, "--execs", 10 if quick else 40, "--spin", 200, "--prop", 3], 6, seed + 53, weight=3, label="native-rel(threads)"),
+                      eng("native-dbg", "conc", ["--shim", "shadow", "--programs", 300 if quick else 3000, "--execs", 10, "--spin", 50, "--prop", 3], 2, seed + 54, weight=3, label="native-dbg(threads)")]
+        for i in range(4 if quick else 12):
+            p["jobs"].append(eng("miri", "conc", ["--shim", "count", "--programs", 12 if quick else 40, "--execs", 3 if quick else 6, "--yield-permille", 300, "--prop", 3], 1, seed * 139 + i, weight=10, timeout=1500 if quick else 10000,
+                                 miriflags="-Zmiri-seed=%d -Zmiri-preemption-rate=0.05" % (seed * 991 + i), label="miri(threads)"))
     elif n == 4:
         p["rule"] = RULE_C04
         p["assumptions"] += ["Miri's scheduler and its store-buffer emulation SAMPLE schedules and visibility orders; 'every schedule' is not covered and not claimed",
